@@ -273,6 +273,53 @@ wait:
 			calls = append(calls, cl)
 		}
 	}
+	// valid files cut at every offset around the header and the end, and at the
+	// header plus whole buffers: every entry point returns, whatever the cut
+	{
+		big := newStream(14, true)
+		big.FileId(0, 0, 4)
+		big.Def(1, 0, 20, []FieldDef{{253, 4, 0x86}, {3, 1, 2}, {4, 1, 2}}, nil)
+		for r := 0; r < 1300; r++ {
+			big.Data(1, append(u32le(0x38200000+uint32(r)), byte(60+r%100), byte(r%200)))
+		}
+		files := [][]byte{big.Bytes()}
+		for _, b := range pool {
+			if len(files) < 5 && len(b) < 4000 {
+				files = append(files, b)
+			}
+		}
+		for fi, b := range files {
+			hs := int(b[0])
+			cuts := map[int]bool{}
+			for o := 0; o <= 18 && o <= len(b); o++ {
+				cuts[o] = true
+			}
+			for o := len(b) - 4; o <= len(b); o++ {
+				if o >= 0 {
+					cuts[o] = true
+				}
+			}
+			for k := 4096; hs+k < len(b); k += 4096 {
+				cuts[hs+k-1], cuts[hs+k], cuts[hs+k+1] = true, true, true
+			}
+			for o := range cuts {
+				for ai, api := range apis {
+					if fi > 0 && (o+ai)%2 == 1 {
+						continue
+					}
+					id++
+					cl := p.runCall(id, api, b, readScript{cut: o, fault: -1, chunks: chunkScripts[(o+ai)%len(chunkScripts)]}, CallOpts{UF: o & 1, UM: ai & 1}, true)
+					cl.Note = fmt.Sprintf("valid file cut at %d", o)
+					if cl.Ret.Panic == 1 {
+						c.report("panic:"+firstWords(cl.Ret.PanicMsg), fmt.Sprintf("%s panics on a valid file cut at %d: %s", api, o, cl.Ret.PanicMsg), cl)
+					}
+					if cl.Ret.Hang == 1 {
+						c.report("hang:"+api, fmt.Sprintf("%s does not return on a valid file cut at %d", api, o), cl)
+					}
+				}
+			}
+		}
+	}
 	// well-formed streams rich in the rarer constructs (unknown messages and
 	// fields, developer fields, compressed headers on any message, empty
 	// definitions), under all 8 option sets: the option-dependent paths
